@@ -468,6 +468,24 @@ func c06ExtremeTokens() [][]byte {
 		o := refbin.VarInt(nil, int64(h&(1<<62-1)), false, 0)
 		add(append(append([]byte{0x6E}, vu(uint64(len(o)+2))...), append(o, 0x0F, 0xE5)...)...)
 	}
+	// an annotation wrapper whose annot_length exceeds the wrapper, followed by a
+	// value whose ten-byte length makes the books balance modulo 2^64
+	for _, al := range []int{3, 4, 5, 6, 7, 12} {
+		for _, wl := range []int{3, 4, 6} {
+			for _, tag := range []byte{0x2E, 0x8E, 0xBE} {
+				tok := []byte{0xE0 | byte(wl), 0x80 | byte(al)}
+				for i := 0; i < al; i++ {
+					tok = append(tok, 0x84)
+				}
+				tok = append(tok, tag)
+				tok = append(tok, vu(^uint64(0)-uint64(al+12-wl)+1)...)
+				tok = append(tok, 0x01, 0x02)
+				add(tok...)
+				// the same with the wrapper closing a four-byte list early
+				add(append([]byte{0xB4}, tok...)...)
+			}
+		}
+	}
 	// declared lengths in the last few dozen values below 2^64 (and below 2^63):
 	// position + length wraps around for some of them and not for others
 	for d := uint64(0); d <= 40; d++ {
@@ -497,6 +515,7 @@ func u64be(v uint64) []byte {
 }
 
 var c06ExtremeTexts = []string{
+	"2001-01-01T00:00:00.5", "2001-01-01T00:00:00.5 ", "[2001-01-01T00:00:00.123]", "{a:2001-01-01T00:00.5}", "2001-01-01T00:00:00.", "2001-01-01T00:00:00.5+", "2001-01-01T00:00:00.5-0", "2001-01-01T00:00:00.5+01", "2001-01-01T00:00:00.5+01:", "2001-01-01T",
 	"$99999999999999999999", "$2147483648", "$4294967296::1", "{$99999999999:1}", "1d99999999999", "1d-99999999999", "1d2147483647", "1d-2147483648", "1d2147483648",
 	"1e99999999", "1e-99999999", "-0e99999999999999999999", "0d99999999999999999999999", "1.0d999999999999999999",
 	"9999-12-31T23:59:59.999999999999999999999999999999+23:59", "0001-01-01T00:00:00.0000000000000000000000-23:59", "2000-01-01T00:00:00.99999999999999999999999999Z",
